@@ -14,10 +14,12 @@ PROPS["C10"] = {
     "modelled": "lex/charset.go (newCharset, invert, subtract, intersect, fold, appendRange, appendTable, appendNamedSet) and lex/regexp.go (parser.next, parse incl. fold stack, \\Q..\\E, "
                 "canAppend literal merging, reduce; parseClass; parseEscape; parseQuantifier; hexval; octval) mirrored step by step on bytes with offsets; the parser's flat stack is a list of frames and "
                 "the first error stops the model; unicode tables and SimpleFold enter as data from the Go standard library",
-    "partial": "fold: completeness of the orbit closure is oracle-checked, not proved; 'every error lies inside the pattern' is proved for parser.next only and oracle-checked for the whole parser; "
-               "class_spec/print_parse are realised as the specification evaluator (RegexSpec.v, built from the proved operations) instead of theorems about the parser model",
+    "partial": "'every error lies inside the pattern' is proved for parser.next only and oracle-checked for the whole parser; class_spec is proved at assembly level "
+               "(parseClass returns class_den of the collected ranges/subtracted sets, and class_den has the documented semantics) but not from the concrete syntax "
+               "(that the scanning loop collects exactly what is written, incl. rejection of hi<lo, is compared with the implementation and oracle-checked); print_parse is realised as the "
+               "specification evaluator (RegexSpec.v, built from the proved operations) instead of a theorem about the parser model",
     "level_text": "Universal Coq theorems for every charset operation of lex/charset.go (newCharset, invert, subtract, intersect, appendRange: exact set semantics for all range lists and all code points plus "
-                  "normal-form preservation; fold: sound and extensive for every fold function), for hexval/octval (exactly the hexadecimal/octal digits) and for the escape accumulator "
+                  "normal-form preservation; fold: sound and extensive for every fold function, and EXACTLY the union of members and their fold orbits, in normal form, whenever the orbits of the members close within the bound (C10_fold_exact)), for the assembly of bracket expressions (C10_parse_class_is_class_den, C10_class_den_spec: members minus subtracted sets, fold-orbit closure, complement within [0,max] when negated), for hexval/octval (exactly the hexadecimal/octal digits) and for the escape accumulator "
                   "(never wraps: within unicode.MaxRune iff the exact value is). The step-by-step model of ParseRegexp is compared with lex.ParseRegexp (AST with offsets, or error id and offsets) on thousands of "
                   "documented, malformed and mutated patterns per run; independently the implementation's AST is compared at language level with the documented meaning evaluated by the proved operations, "
                   "malformed-by-construction patterns must be rejected, and every error must lie inside the pattern.",
